@@ -147,6 +147,23 @@ func c19mRun(t *testing.T, h []int) (res seqx.Result) {
 					res.Skip = true
 					break
 				}
+				// An update that exists on am2 alone (made while it was cut off, or queued for the reliable channel and not
+				// sent yet) dies with the crash: nobody who stays connected ever had a chance to merge it. It is owed to
+				// the others only if one of them holds it already (the restarted am2 then gets it back by push/pull).
+				for id, st := range made {
+					held := false
+					for j, in := range m.inst {
+						if j == 2 || in == nil {
+							continue
+						}
+						if g, ok := meshSilenceIDs(in)[id]; ok && g == st {
+							held = true
+						}
+					}
+					if !held {
+						delete(made, id)
+					}
+				}
 				old := m.kill(2)
 				meshNameOverride[2] = "am2b"
 				m.start(2, old.dir)
